@@ -215,10 +215,26 @@ def evaluate(e, env, depth=0):
                 return l | r
             if op == "BitXor":
                 return l ^ r
-            if op in ("Add", "AddWithOverflow", "AddUnchecked"):
-                return l + r
-            if op in ("Sub", "SubWithOverflow", "SubUnchecked"):
-                return l - r
+            base = op.replace("WithOverflow", "").replace("Unchecked", "")
+            val = None
+            if base == "Add":
+                val = l + r
+            elif base == "Sub":
+                val = l - r
+            elif base == "Mul":
+                val = l * r
+            elif base == "Div" and r != 0:
+                val = l // r
+            elif base == "Rem" and r != 0:
+                val = l % r
+            elif base == "Shl":
+                val = l << r
+            elif base == "Shr":
+                val = l >> r
+            if val is not None:
+                if op.endswith("WithOverflow"):
+                    return ("ovf", val)
+                return val
         return UNK
     if k == "unop":
         x = evaluate(e.b, env, depth + 1)
